@@ -96,6 +96,9 @@ func (c18) Generate(r *sim.Rand, tier string) *sim.Scenario {
 	sc.Cfg["rngseed"] = float64(r.Uint64() >> 12)
 	nclients := r.Range(1, 3)
 	nfocus := r.Range(1, 2)
+	if r.Bool(0.3) {
+		nfocus = 2
+	}
 	if tier == "thorough" {
 		nfocus = r.Range(1, 3)
 	}
@@ -110,6 +113,19 @@ func (c18) Generate(r *sim.Rand, tier string) *sim.Scenario {
 	for i := 0; i < nfocus; i++ {
 		k := c18Kinds[1+r.Intn(len(c18Kinds)-1)]
 		f, nc := c18params(r, k)
+		if i > 0 && r.Bool(0.4) {
+			// a sibling of the first focus: same family and same scale, another
+			// location (state parked between calls is keyed by some but not all parameters)
+			p0 := fs[0]
+			if (p0.kind == "normal" || p0.kind == "randn") && !p0.nilc && len(p0.f) == 2 {
+				k, nc = []string{"normal", "randn"}[r.Intn(2)], false
+				f = []float64{p0.f[0] + []float64{50, -7, 1000}[r.Intn(3)], p0.f[1]}
+			} else if (p0.kind == "uniform" || p0.kind == "randu") && !p0.nilc && len(p0.f) == 2 {
+				k, nc = []string{"uniform", "randu"}[r.Intn(2)], false
+				sh := []float64{40, -9, 3}[r.Intn(3)]
+				f = []float64{p0.f[0] + sh, p0.f[1] + sh}
+			}
+		}
 		fs = append(fs, &focus{k, f, nc, c18Pool, r.Bool(0.5)})
 	}
 	pOther := []float64{0.05, 0.2, 0.4}[r.Intn(3)]
@@ -141,7 +157,9 @@ func (c18) Generate(r *sim.Rand, tier string) *sim.Scenario {
 				st.B = f.trk
 			}
 			// mostly large tensors so that the pool fills within the call budget
-			if r.Bool(0.8) {
+			if r.Bool(0.1) {
+				st.I = []int{[]int{1, 3, 5, 7, 9}[r.Intn(5)]} // odd element counts
+			} else if r.Bool(0.8) {
 				st.I = []int{r.Range(2, 8), r.Range(2, 8), r.Range(2, 10)}
 				if r.Bool(0.3) {
 					st.I = []int{r.Range(100, 600)}
